@@ -274,7 +274,8 @@ pub fn run(c: &Case) -> Outcome {
         let st = stop_writers.clone();
         writers.push(std::thread::spawn(move || {
             let mut i = 0u16;
-            while !st.load(Ordering::Relaxed) {
+            // bounded: the server side does not read input during a scenario, the socket buffer must never fill up
+            while !st.load(Ordering::Relaxed) && i < 300 {
                 if let Ok(mut g) = cl.lock() {
                     let _ = g.try_write(RdpEvent::Pointer(PointerEvent { x: i, y: w as u16, button: PointerButton::None, down: false }));
                 }
